@@ -89,6 +89,9 @@ pub struct ReplCell {
     pub closure_rounds: usize,
     /// Junk acknowledgement indices may be injected before a server frame.
     pub junk_acks: bool,
+    /// After the rounds: mutate everything, tick, and deliver every ordered subset of the
+    /// resulting mutate messages first, the rest one frame later (C10, C12).
+    pub split_stage: bool,
 }
 
 #[derive(Clone, Copy, Debug, PartialEq, Eq)]
@@ -101,6 +104,8 @@ enum Phase {
     Mut(usize),
     ClientFrame(usize),
     Leftover,
+    /// Final stage of the split-delivery cells (C10, C12): choose what reaches the client first.
+    Split,
     Done,
 }
 
@@ -127,6 +132,11 @@ pub struct ReplExec {
     /// C11: tick at which each (client, entity) was last sent in full (set-up / update message).
     pub c11_baseline: BTreeMap<(usize, u8), u32>,
     pub setup_done: bool,
+    /// Split stage: ids of the mutate messages of the final tick and the versions written by it.
+    pub split_msgs: Vec<u32>,
+    pub split_tick: u32,
+    pub split_versions: BTreeMap<(u8, u8), u8>,
+    pub split_before: BTreeMap<(u8, u8), CV>,
 }
 
 const UPD: usize = 0;
@@ -212,7 +222,8 @@ impl ReplCell {
                         Phase::Leftover
                     }
                 }
-                Phase::Leftover => Phase::Done,
+                Phase::Leftover if self.split_stage => Phase::Split,
+                Phase::Leftover | Phase::Split => Phase::Done,
                 Phase::Done => Phase::Done,
             };
             match x.phase {
@@ -224,12 +235,12 @@ impl ReplCell {
 
     /// Every violation raised inside a cell is reported under the cell's own property; the
     /// oracle identifier says which oracle fired.
-    fn v(&self, _oracle_family: &str, oracle: &str, detail: String) -> Violation {
+    pub fn v(&self, _oracle_family: &str, oracle: &str, detail: String) -> Violation {
         Violation::new(self.property, oracle, detail)
     }
 
     /// Per-frame oracles for client `c` (C02, C03, C08-visibility-query).
-    fn check_client(&self, x: &mut ReplExec, c: usize) -> Result<(), Violation> {
+    pub fn check_client(&self, x: &mut ReplExec, c: usize) -> Result<(), Violation> {
         let view = x.sim.client_view(c);
         let mut h = std::collections::hash_map::DefaultHasher::new();
         view.hash(&mut h);
@@ -557,6 +568,10 @@ impl Scenario for ReplCell {
             observed_views: Vec::new(),
             c11_baseline: BTreeMap::new(),
             setup_done: false,
+            split_msgs: vec![],
+            split_tick: 0,
+            split_versions: BTreeMap::new(),
+            split_before: BTreeMap::new(),
         };
         // Handshake / settle: two lock-step rounds, then the initial operations, then settle.
         let r = (|| -> Result<(), Violation> {
@@ -627,6 +642,7 @@ impl Scenario for ReplCell {
                     }
                     return Some(ChoicePoint::env("leftover", alts));
                 }
+                Phase::Split => return Some(crate::props::c10::split_choice(self, x)),
                 Phase::ServerFrame | Phase::ClientFrame(_) => {
                     unreachable!("frame phases are executed inside apply")
                 }
@@ -699,7 +715,14 @@ impl Scenario for ReplCell {
                 }
                 self.advance(x);
             }
+            Phase::Split => {
+                crate::props::c10::split_apply(self, x, alt)?;
+                self.advance(x);
+            }
             Phase::Leftover => {
+                if self.split_stage {
+                    crate::props::c10::split_prepare(self, x)?;
+                }
                 if alt == 1 {
                     x.dropped_leftover = true;
                     for cl in &mut x.sim.clients {
